@@ -427,9 +427,14 @@ def gen_cases(run, scale):
     return cases
 
 
-def input_class(labels):
+HUGE_HEX = __import__('re').compile(rb'0[xX][0-9a-fA-F]{3500,}')
+
+
+def input_class(labels, body=b''):
     if any(l.startswith('deep:reference') or l.startswith('deep:') for l in labels):
         return 'deep_nesting'
+    if HUGE_HEX.search(body):
+        return 'huge_hex_literal'
     return 'other'
 
 
@@ -479,6 +484,7 @@ def run(run):
     mcases = [(c, rec) for c, rec in zip(cases, reals)
               if c.get('transport_exc') is None and not L.op_by_name(c['op']).flags.get('oracle_only')]
     reqs = common.pmap(_mreq, [c for c, _ in mcases], chunksize=16)
+    known = common.load_known_all()
     keep = [i for i, q in enumerate(reqs) if q is not None]
     run.count('K:skipped_too_deep_for_model', len(reqs) - len(keep))
     mcases = [mcases[i] for i in keep]
@@ -492,7 +498,14 @@ def run(run):
         if 'ok' in real and op.flags.get('iter') and real['ok'].get('k') == 'items':
             pass
         # outcome class (+ CIM status / result summary)
-        if rec.get('cls') == 'RecursionError' or (deep and m != real):
+        vsig = None
+        if rec.get('viol') is not None:
+            vsig = dict(rec['viol'][0])
+            vsig['input_class'] = input_class(c['labels'], c['body'])
+        if vsig is not None and m != real and any(common.matches(f, PROP, vsig) for f in known):
+            # an input of an open known finding whose fix is not in the tree: the model mirrors the fixed code
+            run.count('K:skipped_open_known_finding')
+        elif rec.get('cls') == 'RecursionError' or (deep and m != real):
             run.count('K:skipped_deep_nesting')     # Python's recursion limit is not modelled
         elif m != real:
             cj = cj or case_json(c)
@@ -516,7 +529,7 @@ def run(run):
         if rec['viol'] is not None:
             sig, obs = rec['viol']
             sig = dict(sig)
-            sig['input_class'] = input_class(c['labels'])
+            sig['input_class'] = input_class(c['labels'], c['body'])
             run.violate(sig, case_json(c), obs)
 
 
@@ -531,7 +544,7 @@ def search(run):
             if rec.get('viol') is not None:
                 sig, obs = rec['viol']
                 sig = dict(sig)
-                sig['input_class'] = input_class(c['labels'])
+                sig['input_class'] = input_class(c['labels'], c['body'])
                 v = {'sig': sig, 'case': case_json(c), 'observed': obs}
                 if not any(common.matches(f, PROP, sig) for f in known):
                     new.append(v)
